@@ -208,8 +208,9 @@ def parse_opts(rest):
 
 
 class Extractor:
-    def __init__(self, repo, verif, cfg, expanded_provider=None):
+    def __init__(self, repo, verif, cfg, expanded_provider=None, canary=False, canary_at_start=()):
         self.repo, self.verif, self.cfg = repo, verif, cfg
+        self.canary, self.canary_at_start = canary, set(canary_at_start)
         self.sources = {}
         self.log = Log()
         self.out = Out()
@@ -444,7 +445,15 @@ class Extractor:
             ins = '\n'.join(tl)
             return ('\n' + ins + '\n') if block else ins
 
-        for e in spec.edits:
+        all_edits = list(spec.edits)
+        if self.canary and has_body and not spec.external:
+            cl = ['proof { assert(false); } // CANARY']
+            scopes = [None] + [e['scope'] for e in spec.edits if e['op'] == 'nested-spec']
+            for sc in scopes:
+                nm = oname if sc is None else oname + '::' + sc
+                all_edits.append(dict(op='body-start' if nm in self.canary_at_start else 'before-tail', anchor=None, k=None,
+                                      lines=cl, scope=sc, label=None))
+        for e in all_edits:
             op = e['op']
             if spec.external and not (op == 'rewrite' and e['rule'] in ('RET', 'SIG')):
                 continue
